@@ -1,7 +1,367 @@
 /-
-  Property C06 — theorems about QEModel.C06 (stub; to be filled in).
+  Property C06 — discrete Lyapunov and Riccati solvers (quantecon/_matrix_eqn.py).
+
+  All statements are about the definitions of `QEModel/C06.lean` that the driver
+  `qedriver_c06` executes, read as Mathlib matrices through `toMat`
+  (`toMat n m A i j = A.get i j`). `K` is any commutative ring (any linearly
+  ordered field for the statements involving the stopping rule).
+
+  What is proved (algebraic core, all sizes, all iteration counts):
+  * Lyapunov: after `k` passes the loop holds `A^(2^k)` and `Σ_{j<2^k} A^j B (A')^j`
+    (`lyap_doubling_sum`); the residual of that partial sum is exactly the tail term
+    (`lyap_residual`); the stopping rule tests the increment `α γ α'` (`lyap_increment`);
+    symmetry (`lyap_symmetric`); a normal return is such a partial sum with the last
+    increment ≤ tol entrywise and `2 ≤ n_its ≤ max_it` (`lyap_return_spec`); the ValueError
+    exit reports a counter that really exceeds `max_it` (`lyap_raise_spec`).
+  * Riccati: `X = H + γI` solves the equation with cross term iff `H` is a fixed point of the
+    map built from the code's initial triple (`riccati_fixed_point_iff`); each pass updates `H`
+    by that map for the current triple (`sda_step_H_is_map`); `G`, `H` stay symmetric
+    (`ricc_init_symmetric`, `sda_step_symmetric`, `sda_iter_symmetric`,
+    `ricc_returned_symmetric`); a normal return made `1 ≤ p ≤ max_iter` passes and its last
+    error is ≤ tol (`ricc_return_spec`); the γ rule returns an admitted candidate of minimal
+    `f_gamma` (`gamma_choice_spec`, `gamma_choice_none`).
+  `np.linalg.solve` enters through the hypothesis `SolSpec` (returned solutions solve an
+  invertible system); `np.linalg.cond` values are inputs of the γ rule.
+  What is not proved (decided by the spec run of harness/c06.py only):
+  convergence for Schur-stable `A`, the stabilising property and positive
+  semidefiniteness of the Riccati limit, the doubling identity of the SDA triple,
+  and everything on the SciPy paths.
 -/
-import QEModel.C06
+import QEProofs.Lemmas.C06Lyap
+import QEProofs.Lemmas.C06Ricc
+import QEProofs.Lemmas.C06Gamma
+
 namespace QE.C06
+open QE QE.MatAlg Finset Matrix
+
+section lyapunov
+variable {K : Type} [CommRing K]
+
+/-- **lyap_doubling_sum.** After `k` passes of lines 75-76 started from `(A, B)`,
+    `alpha = A^(2^k)` and `gamma = Σ_{j<2^k} A^j B (A')^j` (all sizes `n`, all `k`). -/
+theorem lyap_doubling_sum {n : ℕ} (A B : M K) (hA : Dim A n n) (hB : Dim B n n) (k : ℕ) :
+    toMat n n (lyapIter A B k).1 = toMat n n A ^ (2 ^ k) ∧
+    toMat n n (lyapIter A B k).2 =
+      ∑ j ∈ range (2 ^ k), toMat n n A ^ j * toMat n n B * (toMat n n A)ᵀ ^ j := by
+  induction k with
+  | zero => simp [lyapIter]
+  | succ k ih =>
+    obtain ⟨hd1, hd2⟩ := lyapIter_dim hA hB k
+    obtain ⟨h1, h2⟩ := lyapStep_toMat hd1 hd2
+    rw [lyapIter_succ]
+    refine ⟨?_, ?_⟩
+    · rw [h1, ih.1, ← pow_add, pow_succ, mul_two]
+    · rw [h2, ih.1, ih.2, transpose_pow, pow_succ, mul_comm (2 ^ k) 2]
+      exact (dsum_double (toMat n n A) (toMat n n B) (toMat n n A)ᵀ (2 ^ k)).symm
+
+example : (lyapIter (M.ofRows [[(1 : ℚ) / 2, 1], [0, 1 / 3]]) (M.ofRows [[1, 0], [0, 1]]) 2).1.get 0 1
+    = 65 / 216 := by decide +kernel
+
+/-- **lyap_residual.** The Lyapunov residual of what the loop holds after `k` passes is
+    exactly the tail term: `A γ A' − γ + B = A^(2^k) B (A')^(2^k)`. -/
+theorem lyap_residual {n : ℕ} (A B : M K) (hA : Dim A n n) (hB : Dim B n n) (k : ℕ) :
+    toMat n n A * toMat n n (lyapIter A B k).2 * (toMat n n A)ᵀ - toMat n n (lyapIter A B k).2 + toMat n n B
+      = toMat n n A ^ (2 ^ k) * toMat n n B * (toMat n n A)ᵀ ^ (2 ^ k) := by
+  rw [(lyap_doubling_sum A B hA hB k).2]
+  exact dsum_residual (toMat n n A) (toMat n n B) (toMat n n A)ᵀ (2 ^ k)
+
+/-- **lyap_increment.** The matrix whose max-abs entry the stopping rule tests (line 78,
+    `gamma1 - gamma0`) is the doubling term `A^(2^k) γ_k (A')^(2^k)`. -/
+theorem lyap_increment {n : ℕ} (A B : M K) (hA : Dim A n n) (hB : Dim B n n) (k : ℕ) :
+    toMat n n (msub (lyapIter A B (k + 1)).2 (lyapIter A B k).2)
+      = toMat n n A ^ (2 ^ k) * toMat n n (lyapIter A B k).2 * (toMat n n A)ᵀ ^ (2 ^ k) := by
+  obtain ⟨hd1, hd2⟩ := lyapIter_dim hA hB k
+  obtain ⟨hd1', hd2'⟩ := lyapIter_dim hA hB (k + 1)
+  rw [toMat_msub hd2', lyapIter_succ, (lyapStep_toMat hd1 hd2).2, (lyap_doubling_sum A B hA hB k).1,
+    transpose_pow]
+  abel
+
+/-- **lyap_symmetric.** For symmetric `B` every iterate `gamma` is symmetric. -/
+theorem lyap_symmetric {n : ℕ} (A B : M K) (hA : Dim A n n) (hB : Dim B n n)
+    (hsym : (toMat n n B)ᵀ = toMat n n B) (k : ℕ) :
+    (toMat n n (lyapIter A B k).2)ᵀ = toMat n n (lyapIter A B k).2 := by
+  rw [(lyap_doubling_sum A B hA hB k).2, transpose_sum]
+  apply sum_congr rfl
+  intro j _
+  rw [transpose_mul, transpose_mul, transpose_pow, transpose_pow, transpose_transpose, hsym, mul_assoc]
+
+end lyapunov
+
+section lyapunov_loop
+variable {K : Type} [Field K] [LinearOrder K] [IsStrictOrderedRing K]
+
+/-- **lyap_return_spec.** Whenever `solve_discrete_lyapunov(A, B, max_it)` (doubling, tolerance
+    `tol`) returns normally with final counter `its`, then `2 ≤ its ≤ max_it`, the returned `X` is
+    the partial sum with `2^(its-1)` terms, its residual `A X A' − X + B` is the tail term
+    `A^m B (A')^m`, `m = 2^(its-1)`, and every entry of the last increment `X − γ_(its-2)` is at most
+    `tol` in absolute value. (Whether the tail term is small is the convergence question, which
+    needs `A` Schur stable and is not proved here.) -/
+theorem lyap_return_spec {n : ℕ} (tol : K) (maxIt : ℕ) (A B X : M K) (its : ℕ) (ds : List K)
+    (hA : Dim A n n) (hB : Dim B n n) (h : lyapDoubling tol maxIt A B = .ok X its ds) :
+    2 ≤ its ∧ its ≤ maxIt ∧
+    toMat n n X = ∑ j ∈ range (2 ^ (its - 1)), toMat n n A ^ j * toMat n n B * (toMat n n A)ᵀ ^ j ∧
+    toMat n n A * toMat n n X * (toMat n n A)ᵀ - toMat n n X + toMat n n B
+      = toMat n n A ^ (2 ^ (its - 1)) * toMat n n B * (toMat n n A)ᵀ ^ (2 ^ (its - 1)) ∧
+    ∀ i j : Fin n, |(toMat n n X - toMat n n (lyapIter A B (its - 2)).2) i j| ≤ tol := by
+  unfold lyapDoubling at h
+  obtain ⟨j, hj, hits, hle, hX, hd⟩ := lyapLoop_ok tol maxIt A B (maxIt + 1) 1 0 [] X its ds h
+  have hj1 : its - 1 = j := by omega
+  have hj2 : its - 2 = j - 1 := by omega
+  refine ⟨by omega, hle, ?_, ?_, ?_⟩
+  · rw [hj1, hX]; exact (lyap_doubling_sum A B hA hB j).2
+  · rw [hj1, hX]; exact lyap_residual A B hA hB j
+  · intro a b
+    rw [hj2, hX]
+    obtain ⟨_, hdj⟩ := lyapIter_dim hA hB j
+    have hle' := not_lt.mp hd
+    unfold lyapDiff at hle'
+    have hD : Dim (msub (lyapIter A B j).2 (lyapIter A B (j - 1)).2) n n := dim_msub hdj
+    have := abs_get_le_maxAbs (msub (lyapIter A B j).2 (lyapIter A B (j - 1)).2) a b
+      (by rw [hD.nr]; exact a.2) (by rw [hD.nc]; exact b.2)
+    rw [← toMat_msub hdj]
+    exact le_trans this hle'
+
+/-- non-vacuity: the loop does return normally on a stable input (here after 7 counted iterations) -/
+example : (lyapDoubling ((1 : ℚ) / 1000000000000000) 50 (M.ofRows [[1 / 2]]) (M.ofRows [[1]])).its?
+    = some 7 := by decide +kernel
+
+/-- **lyap_raise_spec.** The `ValueError` exit reports a counter that really exceeds `max_it`
+    (it is never an artefact of the model's fuel). -/
+theorem lyap_raise_spec (tol : K) (maxIt : ℕ) (A B : M K) (n : ℕ) (ds : List K)
+    (h : lyapDoubling tol maxIt A B = .maxit n ds) : maxIt < n := by
+  unfold lyapDoubling at h
+  exact lyapLoop_maxit_real tol maxIt (maxIt + 1) 1 _ _ n ds (by omega) h
+
+end lyapunov_loop
+
+section riccati
+variable {K : Type} [CommRing K]
+
+/-- **sda_step_symmetric.** One structured-doubling pass (lines 214-216) keeps `G` and `H`
+    symmetric, for every size `k` and every `solve` that returns solutions of invertible systems
+    (`SolSpec`; LAPACK itself is not modelled). -/
+theorem sda_step_symmetric {k : ℕ} (sol : M K → M K → Option (M K)) (hsol : SolSpec sol k) (s s1 : Sda K)
+    (hA : Dim s.A k k) (hG : Dim s.G k k) (hH : Dim s.H k k)
+    (hGs : (toMat k k s.G)ᵀ = toMat k k s.G) (hHs : (toMat k k s.H)ᵀ = toMat k k s.H)
+    (h : sdaStep sol s = some s1) :
+    (Dim s1.A k k ∧ Dim s1.G k k ∧ Dim s1.H k k) ∧
+    (toMat k k s1.G)ᵀ = toMat k k s1.G ∧ (toMat k k s1.H)ᵀ = toMat k k s1.H := by
+  obtain ⟨dA, dG, dH, S1, S2, S3, V1, V2, e1, e2, e3, v1a, v1b, v2a, v2b, rA, rG, rH⟩ :=
+    sdaStep_toMat sol hsol s s1 hA hG hH h
+  refine ⟨⟨dA, dG, dH⟩, ?_, ?_⟩
+  · rw [rG, transpose_add, hGs, sda_G_term_symm _ _ _ _ hGs hHs e2]
+  · rw [rH, transpose_add, hHs, sda_H_term_symm _ _ _ _ V2 hGs hHs v2a e3]
+
+/-- **sda_iter_symmetric.** Along the whole structured-doubling iteration (any number of passes)
+    `G_j` and `H_j` stay symmetric — hence so is the returned `X = H + gamma I` — provided the
+    initial `G0`, `H0` are. -/
+theorem sda_iter_symmetric {k : ℕ} (sol : M K → M K → Option (M K)) (hsol : SolSpec sol k) (s : Sda K)
+    (hA : Dim s.A k k) (hG : Dim s.G k k) (hH : Dim s.H k k)
+    (hGs : (toMat k k s.G)ᵀ = toMat k k s.G) (hHs : (toMat k k s.H)ᵀ = toMat k k s.H) :
+    ∀ (j : ℕ) (sj : Sda K), sdaIter sol s j = some sj →
+      (Dim sj.A k k ∧ Dim sj.G k k ∧ Dim sj.H k k) ∧
+      (toMat k k sj.G)ᵀ = toMat k k sj.G ∧ (toMat k k sj.H)ᵀ = toMat k k sj.H := by
+  intro j
+  induction j with
+  | zero =>
+    intro sj h
+    simp only [sdaIter, Option.some.injEq] at h
+    subst h
+    exact ⟨⟨hA, hG, hH⟩, hGs, hHs⟩
+  | succ j ih =>
+    intro sj h
+    simp only [sdaIter] at h
+    cases hprev : sdaIter sol s j with
+    | none => rw [hprev] at h; cases h
+    | some sp =>
+      rw [hprev] at h
+      obtain ⟨⟨dA, dG, dH⟩, gs, hs⟩ := ih sp hprev
+      exact sda_step_symmetric sol hsol sp sj dA dG dH gs hs h
+
+/-- non-vacuity: `SolSpec` is satisfied by the exact 1×1 solver, and the pass does run with it -/
+example : SolSpec (sol1 : M ℚ → M ℚ → Option (M ℚ)) 1 := sol1_spec
+example : (sdaIter sol1 (⟨M.ofRows [[(1 : ℚ) / 2]], M.ofRows [[1 / 2]], M.ofRows [[1 / 2]]⟩ : Sda ℚ) 3).isSome
+    = true := by decide +kernel
+
+/-- **sda_step_H_is_map.** The `H`-update of a structured-doubling pass is the map of
+    `riccati_fixed_point_iff` for the current triple, evaluated at the current `H`:
+    `H1 = H + A' H (I + G H)^{-1} A` (in particular the first pass applies the fixed-point map
+    of the initial triple to `H0`). -/
+theorem sda_step_H_is_map {k : ℕ} (sol : M K → M K → Option (M K)) (hsol : SolSpec sol k) (s s1 : Sda K)
+    (hA : Dim s.A k k) (hG : Dim s.G k k) (hH : Dim s.H k k) (h : sdaStep sol s = some s1) :
+    ∃ Wi : Matrix (Fin k) (Fin k) K, (1 + toMat k k s.G * toMat k k s.H) * Wi = 1 ∧
+      toMat k k s1.H = toMat k k s.H + (toMat k k s.A)ᵀ * (toMat k k s.H * Wi) * toMat k k s.A := by
+  obtain ⟨_, _, _, S1, S2, S3, V1, V2, e1, e2, e3, v1a, v1b, v2a, v2b, rA, rG, rH⟩ :=
+    sdaStep_toMat sol hsol s s1 hA hG hH h
+  refine ⟨V1, v1b, ?_⟩
+  have hS3 : S3 = V2 * (toMat k k s.H * toMat k k s.A) := by
+    rw [← e3, ← Matrix.mul_assoc, v2a, Matrix.one_mul]
+  -- push-through: V2 H = H V1
+  have hpush : V2 * toMat k k s.H = toMat k k s.H * V1 := by
+    calc V2 * toMat k k s.H
+        = V2 * toMat k k s.H * ((1 + toMat k k s.G * toMat k k s.H) * V1) := by rw [v1b, Matrix.mul_one]
+      _ = (V2 * (1 + toMat k k s.H * toMat k k s.G)) * toMat k k s.H * V1 := by noncomm_ring
+      _ = toMat k k s.H * V1 := by rw [v2a, Matrix.one_mul]
+  rw [rH, hS3, ← Matrix.mul_assoc V2, hpush]
+  noncomm_ring
+
+/-- **ricc_init_symmetric.** For symmetric `Q` and `R` the initial `G0` and `H0` (lines 201-204)
+    are symmetric; with `sda_iter_symmetric` every `H_j`, hence the returned `X = H + gamma I`,
+    is symmetric. -/
+theorem ricc_init_symmetric {k n : ℕ} (sol : M K → M K → Option (M K)) (hsol : SolSpec sol n) (g : K)
+    (A B Q R N : M K) (s0 : Sda K)
+    (hA : Dim A k k) (hB : Dim B k n) (hQ : Dim Q k k) (hR : Dim R n n) (hN : Dim N n k)
+    (hQs : (toMat k k Q)ᵀ = toMat k k Q) (hRs : (toMat n n R)ᵀ = toMat n n R)
+    (h0 : riccInit sol g A B Q R N = some s0) :
+    (Dim s0.A k k ∧ Dim s0.G k k ∧ Dim s0.H k k) ∧
+    (toMat k k s0.G)ᵀ = toMat k k s0.G ∧ (toMat k k s0.H)ᵀ = toMat k k s0.H := by
+  obtain ⟨dA, dG, dH, V, _, vb, _, eG, eH⟩ := riccInit_toMat sol hsol g A B Q R N s0 hA hB hQ hR hN h0
+  have hRht : (toMat n n R + g • ((toMat k n B)ᵀ * toMat k n B))ᵀ
+      = toMat n n R + g • ((toMat k n B)ᵀ * toMat k n B) := by
+    rw [transpose_add, transpose_smul, transpose_mul, transpose_transpose, hRs]
+  have hV : Vᵀ = V := by
+    have h1 : Vᵀ * (toMat n n R + g • ((toMat k n B)ᵀ * toMat k n B)) = 1 := by
+      rw [← hRht, ← transpose_mul, vb, transpose_one]
+    calc Vᵀ = Vᵀ * ((toMat n n R + g • ((toMat k n B)ᵀ * toMat k n B)) * V) := by rw [vb, Matrix.mul_one]
+      _ = (Vᵀ * (toMat n n R + g • ((toMat k n B)ᵀ * toMat k n B))) * V := by rw [Matrix.mul_assoc]
+      _ = V := by rw [h1, Matrix.one_mul]
+  refine ⟨⟨dA, dG, dH⟩, ?_, ?_⟩
+  · rw [eG, transpose_mul, transpose_mul, transpose_transpose, hV, Matrix.mul_assoc]
+  · rw [eH]
+    simp only [transpose_sub, transpose_add, transpose_smul, transpose_mul, transpose_transpose,
+      transpose_one, hQs, hV, Matrix.mul_assoc]
+
+/-- **riccati_fixed_point_iff.** Let `(A0, G0, H0)` be the initial triple the code builds for the
+    chosen `gamma` (lines 198-204, `riccInit`), `R` symmetric. For every symmetric `H` such that
+    `R + B'XB` (with `X = H + gamma I`) and `I + G0 H` are invertible (`Si`, `Wi` their inverses):
+    `X` solves the Riccati equation with cross term,
+      `X = A'XA − (N + B'XA)'(R + B'XB)^{-1}(N + B'XA) + Q`,
+    **iff** `H` is a fixed point of the map the doubling iterates,
+      `H = H0 + A0' H (I + G0 H)^{-1} A0`.
+    All sizes `k`, `n`; any `solve` satisfying `SolSpec`. (That the loop converges to such a fixed
+    point, and to the stabilising one, is not proved.) -/
+theorem riccati_fixed_point_iff {k n : ℕ} (sol : M K → M K → Option (M K)) (hsol : SolSpec sol n) (g : K)
+    (A B Q R N : M K) (s0 : Sda K)
+    (hA : Dim A k k) (hB : Dim B k n) (hQ : Dim Q k k) (hR : Dim R n n) (hN : Dim N n k)
+    (hRs : (toMat n n R)ᵀ = toMat n n R)
+    (h0 : riccInit sol g A B Q R N = some s0)
+    (H Wi : Matrix (Fin k) (Fin k) K) (Si : Matrix (Fin n) (Fin n) K) (hH : Hᵀ = H)
+    (hSi1 : Si * (toMat n n R + (toMat k n B)ᵀ * (H + g • (1 : Matrix (Fin k) (Fin k) K)) * toMat k n B) = 1)
+    (hSi2 : (toMat n n R + (toMat k n B)ᵀ * (H + g • (1 : Matrix (Fin k) (Fin k) K)) * toMat k n B) * Si = 1)
+    (hW : (1 + toMat k k s0.G * H) * Wi = 1) :
+    (H + g • (1 : Matrix (Fin k) (Fin k) K)
+        = (toMat k k A)ᵀ * (H + g • (1 : Matrix (Fin k) (Fin k) K)) * toMat k k A
+          - (toMat n k N + (toMat k n B)ᵀ * (H + g • (1 : Matrix (Fin k) (Fin k) K)) * toMat k k A)ᵀ * Si
+            * (toMat n k N + (toMat k n B)ᵀ * (H + g • (1 : Matrix (Fin k) (Fin k) K)) * toMat k k A)
+          + toMat k k Q)
+    ↔ H = toMat k k s0.H + (toMat k k s0.A)ᵀ * (H * Wi) * toMat k k s0.A := by
+  obtain ⟨_, _, _, V, _, vb, eA, eG, eH⟩ := riccInit_toMat sol hsol g A B Q R N s0 hA hB hQ hR hN h0
+  rw [eG] at hW
+  rw [eA, eH]
+  exact dare_iff_sda_form (toMat k k A) (toMat k k Q) H Wi _ (toMat k n B) (toMat n k N) _
+    (toMat n n R) _ V _ Si g hH hRs rfl rfl rfl rfl vb hSi1 hSi2 hW
+
+/-- non-vacuity: with the exact 1×1 solver the initial triple exists (A=B=Q=1, R=2, N=0, gamma=1;
+    the Riccati solution of this instance is X = 2, i.e. H = 1) -/
+example : (riccInit sol1 (1 : ℚ) (M.ofRows [[1]]) (M.ofRows [[1]]) (M.ofRows [[1]]) (M.ofRows [[2]])
+    (M.ofRows [[0]])).isSome = true := by decide +kernel
+
+end riccati
+
+section riccati_loop
+variable {K : Type} [Field K] [LinearOrder K] [IsStrictOrderedRing K]
+
+/-- **ricc_return_spec.** Whenever `solve_discrete_riccati(..., method="doubling")` (after the choice
+    of `gamma`) returns normally, it made `1 ≤ p ≤ max_iter` structured-doubling passes from the
+    initial triple, the returned matrix is `H_p + gamma I`, and the last error
+    `max|H_p − H_(p-1)|` is at most `tol`. -/
+theorem ricc_return_spec (sol : M K → M K → Option (M K)) (tol : K) (maxIter : ℕ) (g : K)
+    (A B Q R N X : M K) (p : ℕ) (es : List K)
+    (h : riccDoubling sol tol maxIter g A B Q R N = some (.ok X p es)) :
+    ∃ s0 sp sprev, riccInit sol g A B Q R N = some s0 ∧ 1 ≤ p ∧ p ≤ maxIter ∧
+      sdaIter sol s0 p = some sp ∧ sdaIter sol s0 (p - 1) = some sprev ∧
+      X = madd sp.H (smul g (ident Q.nr)) ∧ maxAbs gabs (msub sp.H sprev.H) ≤ tol := by
+  unfold riccDoubling at h
+  cases h0 : riccInit sol g A B Q R N with
+  | none => rw [h0] at h; cases h
+  | some s0 =>
+    rw [h0] at h
+    simp only at h
+    cases hl : riccLoop sol tol maxIter (maxIter + 2) 1 (tol + 1) s0 none [] with
+    | ok H p' es' =>
+      rw [hl] at h
+      simp only [Option.some.injEq, RiccOut.ok.injEq] at h
+      obtain ⟨hX, hp, _⟩ := h
+      subst hp
+      obtain ⟨sp, sprev, h1, h2, hsp, hH, hprev, herr⟩ :=
+        riccLoop_ok sol tol maxIter s0 (maxIter + 2) 0 (tol + 1) s0 none [] H p' es' hl rfl
+          (by intro Hl hc; cases hc)
+      exact ⟨s0, sp, sprev, rfl, h1, h2, hsp, hprev, by rw [← hX, hH], herr⟩
+    | maxit i es' => rw [hl] at h; simp at h
+    | singular q => rw [hl] at h; simp at h
+    | unbound => rw [hl] at h; simp at h
+
+/-- **ricc_returned_symmetric.** For symmetric `Q`, `R` (all sizes `k`, `n`), whatever number of
+    passes the loop makes, a normally returned `X` is symmetric. -/
+theorem ricc_returned_symmetric {k n : ℕ} (sol : M K → M K → Option (M K))
+    (hsolk : SolSpec sol k) (hsoln : SolSpec sol n) (tol : K) (maxIter : ℕ) (g : K)
+    (A B Q R N X : M K) (p : ℕ) (es : List K)
+    (hA : Dim A k k) (hB : Dim B k n) (hQ : Dim Q k k) (hR : Dim R n n) (hN : Dim N n k)
+    (hQs : (toMat k k Q)ᵀ = toMat k k Q) (hRs : (toMat n n R)ᵀ = toMat n n R)
+    (h : riccDoubling sol tol maxIter g A B Q R N = some (.ok X p es)) :
+    (toMat k k X)ᵀ = toMat k k X := by
+  obtain ⟨s0, sp, sprev, h0, _, _, hsp, _, hX, _⟩ := ricc_return_spec sol tol maxIter g A B Q R N X p es h
+  obtain ⟨⟨dA, dG, dH⟩, gs, hs⟩ := ricc_init_symmetric sol hsoln g A B Q R N s0 hA hB hQ hR hN hQs hRs h0
+  obtain ⟨⟨_, _, dHp⟩, _, hps⟩ := sda_iter_symmetric sol hsolk s0 dA dG dH gs hs p sp hsp
+  have hI : Dim (ident Q.nr : M K) k k := by rw [hQ.nr]; exact dim_ident k
+  have hIm : toMat k k (ident Q.nr : M K) = 1 := by rw [hQ.nr]; exact toMat_ident k
+  rw [hX, toMat_madd dHp, toMat_smul g hI, hIm, transpose_add, hps, transpose_smul, transpose_one]
+
+end riccati_loop
+
+section gamma
+variable {K : Type} [LinearOrder K] [Mul K] [One K]
+
+/-- **gamma_choice_spec.** The rule of lines 172-195, on the condition numbers the code computed
+    (`c = (gamma, cond(Z), cond(Z,inf), cond(I+G0H0))`): a returned `gamma` belongs to a candidate
+    that passed `cn * EPS < 1`, whose `f_gamma = max(f1, gamma f1, f3)` is below `inf` and minimal
+    among all admitted candidates. -/
+theorem gamma_choice_spec (eps inf : K) (cands : List (K × K × K × K)) (g : K)
+    (h : gammaSel eps inf cands = some g) :
+    ∃ c ∈ cands, c.1 = g ∧ admitted eps c ∧ fGamma c < inf ∧
+      ∀ c' ∈ cands, admitted eps c' → fGamma c ≤ fGamma c' := by
+  unfold gammaSel at h
+  simp only at h
+  obtain ⟨_, f2, f3⟩ := gammaSel_fold eps cands (none, inf)
+  split at h
+  · cases h
+  · rename_i hne
+    rcases f3 with heq | ⟨c, hc, ha, h1, h2, h3⟩
+    · rw [heq] at hne; simp at hne
+    · refine ⟨c, hc, ?_, ha, by rw [← h2]; exact h3, fun c' hc' ha' => by rw [← h2]; exact f2 c' hc' ha'⟩
+      rw [h1] at h
+      exact Option.some.inj h
+
+/-- **gamma_choice_none.** The `ValueError("Unable to initialize …")` exit is taken only when no
+    admitted candidate has `f_gamma < inf`. -/
+theorem gamma_choice_none (eps inf : K) (cands : List (K × K × K × K))
+    (h : gammaSel eps inf cands = none) :
+    ∀ c ∈ cands, admitted eps c → inf ≤ fGamma c := by
+  unfold gammaSel at h
+  simp only at h
+  obtain ⟨_, f2, f3⟩ := gammaSel_fold eps cands (none, inf)
+  split at h
+  · rename_i heq
+    have : (List.foldl (gammaSelStep eps) (none, inf) cands).2 = inf := by simpa using heq
+    intro c hc ha
+    rw [← this]; exact f2 c hc ha
+  · rcases f3 with heq | ⟨c, _, _, h1, _, _⟩
+    · rename_i hne; rw [heq] at hne; simp at hne
+    · rw [h1] at h; cases h
+
+/-- non-vacuity (integers standing for the doubles): three candidates, the first not admitted -/
+example : gammaSel (1 : Int) 1000 [(1, 5, 7, 7), (2, 0, 3, 4), (3, 0, 1, 5), (4, 0, 1, 5)] = some 3 := by decide +kernel
+
+end gamma
 
 end QE.C06
